@@ -8,7 +8,8 @@ hand-written bridge theorems (lean/PabuProofs/Bridge/<Prop>.lean) re-prove that 
 model uses.  If the source changes, the regenerated definition changes and the bridge theorem stops checking.
 
 The translator handles a small expression subset: names, integer constants, + - * / and unary minus,
-comparisons, and/or/not, conditional expressions, `frac(a, b)`, `min/max`, and function bodies made of
+comparisons, and/or/not, conditional expressions, `frac(a, b)`, `min/max`, `round(x, k)` (the rounding function then is a
+parameter of the leaf), and function bodies made of
 `if …: return …` / `return …` / simple assignments; of an assignment whose value is a comprehension or
 `sum(generator)` the element expression can be taken (`assign(…, elt=True)`), and a module-level integer
 constant can be read (`const`).  Sub-expressions that stand for model quantities
@@ -75,6 +76,10 @@ class Tr:
                 return f"({f} {self.expr(n.args[0])} {self.expr(n.args[1])})"
             if f == "float" and len(n.args) == 1:
                 return self.expr(n.args[0])
+            if f == "round" and len(n.args) == 2 and not n.keywords and "round" in self.env:
+                # `round(x, ndigits)`: the rounding function is a parameter of the leaf (a function `Rat → Rat → Rat`),
+                # applied to the translated arguments in the source's order
+                return f"({self.env['round']} {self.expr(n.args[0])} {self.expr(n.args[1])})"
             raise TranslationError(f"call {f}")
         if isinstance(n, ast.IfExp):
             return f"(if {self.cond(n.test)} then {self.expr(n.body)} else {self.expr(n.orelse)})"
@@ -365,7 +370,9 @@ LEAVES = [
     ("C14", "cohAlphaMin", "(minScore : Rat)", "Rat", exprc(COH, "cohesive_groups", "min((b[p]", {"min((b[p] for b in group))": "minScore"})),
     # ---- C12: the price-system validator
     ("C12", "checkRoundPrecision", "", "Rat", const(PRI, "CHECK_ROUND_PRECISION")),
-    ("C12", "roundCmp", "(roundedA roundedB : Rat)", "Rat", whole(UTL, "round_cmp", {"round(a, precision)": "roundedA", "round(b, precision)": "roundedB"})),
+    # `round` is a parameter, so the leaf shows WHAT is rounded: `round(a - b, precision)` (the difference), not two rounded numbers
+    ("C12", "roundCmp", "(round : Rat → Rat → Rat) (a b precision : Rat)", "Rat",
+     whole(UTL, "round_cmp", {"round": "round", "a": "a", "b": "b", "precision": "precision"})),
     ("C12", "notSelected", "(inW : Bool)", "Bool", test(PRI, "validate_price_system", "c not in W", {"c not in W": "(!inW)"}, bools=("(!inW)",))),
     ("C12", "spent", "(paySum : Rat)", "Rat", assign(PRI, "validate_price_system", "spent", {"sum((pf[idx][c] for c in C))": "paySum"}, elt=True)),
     ("C12", "leftover", "(b spent : Rat)", "Rat", assign(PRI, "validate_price_system", "leftover", {"b": "b", "spent[idx]": "spent"}, elt=True)),
